@@ -617,6 +617,8 @@ def run(rep: vlib.Reporter, tier: str, seed: int) -> None:
     trees = groups["trees"] + groups["stars"]
     recs = [one(s) for s in specs + trees]
     found = False
+    from harness import srctie      # source-text tie (Props/SrcTie.v): TransformFrameworkStep.__eq__ / __hash__ regenerated from the source text = the de-duplication key of transform steps
+    found = (not srctie.check(rep)) or found
     dist: Dict[str, Any] = {"two_way": len(specs), "trees": len(trees), "generated": {k: len(v) for k, v in groups.items()},
                             "status": {}, "kf_domains": {}, "kf_outcome": {}, "correct": 0, "correct_inside_kf": 0}
     terms, idx = [], []
@@ -830,6 +832,10 @@ def run(rep: vlib.Reporter, tier: str, seed: int) -> None:
 
 def replay(path: str) -> int:
     r = json.load(open(path))["replay"]
+    if r.get("kind") == "srctie":
+        from harness import srctie
+        srctie.replay(r, show=True)
+        return 0
     install()
     spec = r["spec"]
     if r.get("kind") == "shared":
